@@ -166,17 +166,21 @@ SameJs(a, b) ==
 
 \* a model value against the engine's own view of it (raw engine value through the wire).  How the engine holds
 \* a number that came from an int which is not a double is C03 / C06 matter: the wire calls it a hostval.
-RECURSIVE JsMatches(_, _)
-JsMatches(a, b) ==
-  IF a.k = "num" /\ HasXi(a) /\ ~ExactInt(a.xi[1], a.xi[2]) /\ b.k = "hostval" THEN b.t = "int(not a double)"
+\* harness/wire.py stops classifying below nesting depth 12 ("cyc"): deeper levels are not judged through this view.
+WireDepth == 12
+RECURSIVE JsMatchesD(_, _, _)
+JsMatchesD(a, b, d) ==
+  IF b.k = "cyc" THEN d > WireDepth /\ a.k \in {"arr", "obj"}
+  ELSE IF a.k = "num" /\ HasXi(a) /\ ~ExactInt(a.xi[1], a.xi[2]) /\ b.k = "hostval" THEN b.t = "int(not a double)"
   ELSE /\ a.k = b.k
        /\ CASE a.k = "num" -> (WIsNaN(a.w) /\ WIsNaN(b.w)) \/ a.w = b.w
             [] a.k = "bool" -> a.b = b.b
             [] a.k = "str" -> a.u = b.u
-            [] a.k = "arr" -> Len(a.e) = Len(b.e) /\ \A i \in 1..Len(a.e) : JsMatches(a.e[i], b.e[i])
-            [] a.k = "obj" -> Len(a.p) = Len(b.p) /\ \A i \in 1..Len(a.p) : a.p[i].n = b.p[i].n /\ JsMatches(a.p[i].v, b.p[i].v)
+            [] a.k = "arr" -> Len(a.e) = Len(b.e) /\ \A i \in 1..Len(a.e) : JsMatchesD(a.e[i], b.e[i], d + 1)
+            [] a.k = "obj" -> Len(a.p) = Len(b.p) /\ \A i \in 1..Len(a.p) : a.p[i].n = b.p[i].n /\ JsMatchesD(a.p[i].v, b.p[i].v, d + 1)
             [] a.k \in {"undef", "null"} -> TRUE
             [] OTHER -> FALSE
+JsMatches(a, b) == JsMatchesD(a, b, 0)
 
 \* ---------------- the context as a store of copies -------------------------------------------------
 Unset == [k |-> "unset"]
